@@ -9,6 +9,7 @@ Property theorems only; helpers are in `Sqfs/Proofs/HardLink.lean` (hard links) 
 import Sqfs.Proofs.HardLinkTree
 import Sqfs.Proofs.TextParse
 import Sqfs.Proofs.C07Lines
+import Sqfs.Proofs.C07ReadHeader
 namespace Sqfs.C07
 open Sqfs.HardLink
 
@@ -262,7 +263,26 @@ reads stay inside `value[0 .. strlen(value)]`, and at most `strlen(value)` bytes
 theorem xattr_decode_bounds (buf : Bytes) (hne : buf ≠ []) (hlast : buf[buf.length - 1]? = some 0) : (xattrDecode buf).safe :=
   xattrDecode_safe buf hne hlast
 
+/--
+**`read_header` on any byte stream.**  The `for (;;)` loop over 512-byte records (zero records, magic and checksum
+test, `L` / `K` / `x` / `g` extension records, old and new GNU sparse maps, `decode_header`) has ended after
+`stream.length / 512 + 2` rounds — every round consumes a record, so no sequence of extension records keeps it busy —,
+no header field is read outside the 512-byte header, no record outside its `size + 1` byte buffer, and every size it
+hands to `record_to_memory` (`malloc(size + 1)`) lies between 1 and the largest of `TAR_MAX_SYMLINK_LEN`,
+`TAR_MAX_PATH_LEN`, `TAR_MAX_PAX_LEN`, whatever the size fields claim (octal, base-256, 2^64 − 1, …).
+-/
+theorem read_header_total (stream : Bytes) :
+    (match (readHeader stream).res with | .oob => False | .spin => False | _ => True) ∧
+    ∀ n ∈ (readHeader stream).allocs, 1 ≤ n ∧
+      n ≤ max Sqfs.Consts.tarMaxSymlinkLen (max Sqfs.Consts.tarMaxPathLen Sqfs.Consts.tarMaxPaxLen) :=
+  rhLoop_good _ (by omega) (by omega) (by omega) _ stream {} false [] (by omega) (by intro n h; cases h)
+
 /-! ### non-vacuity -/
+/-- a GNU long-name record (14 bytes, one allocation) in front of a ustar member `short` with 3 bytes of data, end marker -/
+def rhExample : Bytes := [46] ++ [47] ++ [46] ++ [47] ++ [64] ++ [76] ++ [111] ++ [110] ++ [103] ++ [76] ++ [105] ++ [110] ++ [107] ++ List.replicate 87 0 ++ [48, 48, 48, 48] ++ [54] ++ [52, 52] ++ [0] ++ List.replicate 7 48 ++ [0] ++ List.replicate 7 48 ++ [0] ++ List.replicate 9 48 ++ [49] ++ [54] ++ [0] ++ List.replicate 11 48 ++ [0] ++ [48] ++ [49] ++ [48, 48] ++ [51] ++ [48] ++ [0] ++ [32] ++ [76] ++ List.replicate 100 0 ++ [117] ++ [115] ++ [116] ++ [97] ++ [114] ++ [0] ++ [48, 48] ++ List.replicate 247 0 ++ [100] ++ [105] ++ [114] ++ [47] ++ [108] ++ [111] ++ [110] ++ [103] ++ [45] ++ [110] ++ [97] ++ [109] ++ [101] ++ List.replicate 499 0 ++ [115] ++ [104] ++ [111] ++ [114] ++ [116] ++ List.replicate 95 0 ++ [48, 48, 48, 48] ++ [54] ++ [52, 52] ++ [0] ++ List.replicate 7 48 ++ [0] ++ List.replicate 7 48 ++ [0] ++ List.replicate 10 48 ++ [51] ++ [0] ++ List.replicate 11 48 ++ [0] ++ [48, 48] ++ [55] ++ [48] ++ [50] ++ [48] ++ [0] ++ [32] ++ [48] ++ List.replicate 100 0 ++ [117] ++ [115] ++ [116] ++ [97] ++ [114] ++ [0] ++ [48, 48] ++ List.replicate 247 0 ++ [97] ++ [98] ++ [99] ++ List.replicate 1533 0
+example : (match (readHeader rhExample).res with
+    | .ok t rest => decide (t.name = [100, 105, 114, 47, 108, 111, 110, 103, 45, 110, 97, 109, 101] ∧ t.recordSize = 3 ∧ rest.length = 1536)
+    | _ => false) = true ∧ (readHeader rhExample).allocs = [14] := by decide +kernel
 example : xattrDecode [34, 97, 92, 49, 48, 49, 92, 92, 34, 0] = .ok [97, 65, 92] := by decide
 example : readNumber [48, 48, 48, 49, 50, 51, 52, 0] 0 8 = .ok 668 := by decide
 example : readNumber [0x80, 0, 0, 0, 0, 0, 1, 0] 0 8 = .ok 256 := by decide
